@@ -55,43 +55,8 @@ theorem header_roundtrip (final rsv1 masked : Bool) (op : Nat) (hop : op < 16) (
     ∃ b0 b1 ext, encHeader (firstByte final rsv1 op) masked len = b0 :: b1 :: ext ∧
       (parseHdr b0 b1).fin = final ∧ (parseHdr b0 b1).rsv1 = rsv1 ∧ (parseHdr b0 b1).rsv2 = false ∧
       (parseHdr b0 b1).rsv3 = false ∧ (parseHdr b0 b1).opcode = op ∧ (parseHdr b0 b1).masked = masked ∧
-      Spec.extLen (parseHdr b0 b1).len7 (ext ++ rest) = some (len, rest) := by
-  have hb0 := fun b1 => parse_firstByte final rsv1 ⟨op, hop⟩ b1
-  simp only at hb0
-  unfold encHeader
-  simp only []
-  split
-  · -- 64-bit form
-    rename_i h
-    have hm := parse_len7 masked ⟨127, by omega⟩ (firstByte final rsv1 op)
-    simp only at hm
-    refine ⟨_, _, toBE 8 len, rfl, (hb0 _).1, (hb0 _).2.1, (hb0 _).2.2.1, (hb0 _).2.2.2.1, (hb0 _).2.2.2.2,
-      hm.1, ?_⟩
-    rw [show (127 : UInt8) = UInt8.ofNat 127 from rfl, hm.2]
-    have hl : (toBE 8 len).length = 8 := toBE_length 8 len
-    simp only [Spec.extLen]
-    simp [hl, List.take_append_of_le_length, List.drop_append_of_le_length,
-      beVal_toBE8 len (by omega)]
-  · split
-    · -- 16-bit form
-      rename_i h1 h2
-      have hm := parse_len7 masked ⟨126, by omega⟩ (firstByte final rsv1 op)
-      simp only at hm
-      refine ⟨_, _, toBE 2 len, rfl, (hb0 _).1, (hb0 _).2.1, (hb0 _).2.2.1, (hb0 _).2.2.2.1, (hb0 _).2.2.2.2,
-        hm.1, ?_⟩
-      rw [show (126 : UInt8) = UInt8.ofNat 126 from rfl, hm.2]
-      have hl : (toBE 2 len).length = 2 := toBE_length 2 len
-      simp only [Spec.extLen]
-      simp [hl, List.take_append_of_le_length, List.drop_append_of_le_length,
-        beVal_toBE2 len (by omega)]
-    · rename_i h1 h2
-      have hm := parse_len7 masked ⟨len, by omega⟩ (firstByte final rsv1 op)
-      simp only at hm
-      refine ⟨_, _, [], rfl, (hb0 _).1, (hb0 _).2.1, (hb0 _).2.2.1, (hb0 _).2.2.2.1, (hb0 _).2.2.2.2,
-        hm.1, ?_⟩
-      rw [hm.2]
-      have : len < 126 := by omega
-      simp [Spec.extLen, this]
+      Spec.extLen (parseHdr b0 b1).len7 (ext ++ rest) = some (len, rest) :=
+  encHeader_parse final rsv1 masked op hop len hlen rest
 
 /-- `truncWriter`: however the compressed stream is cut into `Write` calls (empty ones included),
 the bytes passed on to the message writer are the stream without its last four bytes, and those
